@@ -175,7 +175,7 @@ pub fn c10(a: &Args) -> Report {
 pub fn c11_specs(tier: Tier) -> Vec<Spec> {
     let bodies: Vec<&str> = vec!["a", "a|b", "[ab]+", "(?i)a", "(?i:a)b", "(?s).", "a|bc", "é", "\\p{Greek}", "ab?", "(?-u:a)", "a|", "(?x) a b"];
     let bodies: Vec<&str> = if tier == Tier::Thorough { bodies } else { bodies[..9].to_vec() };
-    let users = ["(?&s)", "x(?&s)", "(?&s)x", "x(?&s)y", "(?&s)+", "(?&s)|c", "(?&s)(?&s)", "(?:(?&s))?x", "(?&s){2}y", "[xy](?&s)*z"];
+    let users = ["(?&s)", "x(?&s)", "(?&s)x", "x(?&s)y", "(?&s)+", "(?&s)|c", "(?&s)(?&s)", "(?:(?&s))?x", "(?&s){2}y", "[xy](?&s)*z", "é(?&s)+", "«(?&s)»", "(?&s)→(?&s)x", "€€(?&s)q"];
     let mut specs = vec![];
     for b in &bodies {
         for u in users {
@@ -247,6 +247,8 @@ pub fn c12(a: &Args) -> Report {
             base.push(s);
         }
     }
+    // subpattern definitions that are acceptable in str mode (cross-mode references included)
+    base.extend(c11_specs(a.tier).into_iter().filter(|s| s.utf8));
     if a.tier == Tier::Quick {
         // keep the quick tier quick: every third definition of the enumerated part
         let keep = (a.seed % 3) as usize;
